@@ -189,7 +189,7 @@ Proof.
         exists (upd_worker (with_redirects (with_flag c true) (del_redirect (c_redirects c) id)) wk'). cbn [upd_worker with_workers with_redirects with_flag c_workers]. rewrite find_set_worker, Eid'.
         destruct (BijBase.find_task_some _ _ _ Ef) as [_ _]. destruct (InvWBase.find_worker_some _ _ _ Hwt) as [_ Ewt]. rewrite Ewt.
         destruct (N.eqb w tg) eqn:E.
-        + apply N.eqb_eq in E. subst tg. exists wk', (tid_remove id at'), pt, (res_add ft (rq_res rq1)). split; [reflexivity|]. split; [reflexivity|]. split; [exact E0'|].
+        + apply N.eqb_eq in E. subst tg. exists wk', (tid_remove id at'), pt, (res_add_cap ft (rq_res rq1) (w_res wkt)). split; [reflexivity|]. split; [reflexivity|]. split; [exact E0'|].
           apply tid_mem_remove_same. rewrite <- E in Hwt. destruct HW as (_ & _ & Hv & _). exact (proj1 (wi_sets _ _ _ Hv w wkt at' pt ft Hwt Eat)).
         + exists wk, a, p, f. split; [reflexivity|]. split; [exact Hw|]. split; [exact Ea|].
           eapply (not_inA c w wk a p f id t HW Hw Ea Ef); try (intros; try intro; congruence).
